@@ -2,4 +2,13 @@
 HDR = 'use vstd::prelude::*;\nuse crate::ghost::*;\n'
 MODULES = [
     dict(name='varint', file='varint.rs', header=HDR, rewrites=[]),
+    dict(name='block_writer', file='block_writer.rs', header=HDR, rewrites=[
+        dict(name='R-assert-diverge', kind='assert_diverge', count='+'),
+        dict(name='R-hoist:extend-offsets', pat='self.buffer.extend(self.index_offsets.iter().copied().flat_map(u64::to_be_bytes));',
+             rep='crate::vstubs::extend_be64s(&mut self.buffer, &self.index_offsets);'),
+        dict(name='R-bytes:u32', kind='re', pat=r'\bindex_offsets_count\.to_(be|le)_bytes\(\)', rep=r'crate::vstubs::u32_to_\1_bytes(index_offsets_count)'),
+        dict(name='R-exec-const', pat='const DEFAULT_INDEX_KEY_INTERVAL: NonZeroUsize =', rep='exec const DEFAULT_INDEX_KEY_INTERVAL: NonZeroUsize ='),
+        dict(name='R-pub-field', pat="    block_builder: &'a mut BlockWriter,", rep="    pub block_builder: &'a mut BlockWriter,"),
+        dict(name='R-drop', pat="impl Drop for BlockBuffer<'_> {\n    fn drop(&mut self) {", rep="impl BlockBuffer<'_> {\n    pub fn verif_drop(&mut self) {"),
+    ]),
 ]
